@@ -55,6 +55,7 @@ VARIABLES
     tabs,       \* tables as the process sees them (page cache)
     dtabs,      \* tables as of the last msync (what power loss falls back to)
     flushedCq,  \* number of "cq" files whose table changes are all in dtabs
+    applied,    \* ghost: highest history index whose record was applied to tabs
     durable,    \* number of commits (prefix of hist) whose record was synced / flushed
     mode,       \* "open" | "crashed" | "recovering" | "err"
     rcv,        \* recovery cursor: [f, r, any]
@@ -65,7 +66,7 @@ VARIABLES
     trace       \* history of steps (only when Gen)
 
 vars == <<hist, logical, calls, queue, nextCid, covl, lw, nextRid, logs, rpos, lovl, cw,
-          lastEnacted, tabs, dtabs, flushedCq, durable, mode, rcv, ncrash, naux,
+          lastEnacted, tabs, dtabs, flushedCq, applied, durable, mode, rcv, ncrash, naux,
           lastRec, rdr, trace>>
 
 ----------------------------------------------------------------------------
@@ -175,6 +176,7 @@ CwIdle == cw.pc = "idle"
 FileIdx(st) == { i \in 1..Len(logs) : logs[i].st = st }
 HasApp == Len(logs) > 0 /\ logs[Len(logs)].st = "app"
 MinOf(S) == CHOOSE x \in S : \A y \in S : x <= y
+MaxOf(S) == CHOOSE x \in S : \A y \in S : x >= y
 NumCq == Cardinality(FileIdx("cq"))
 
 ----------------------------------------------------------------------------
@@ -203,10 +205,10 @@ Init ==
     /\ lw = Idle /\ nextRid = 1 /\ logs = <<>> /\ rpos = 0
     /\ lovl = [l \in Loc |-> NoLovl]
     /\ cw = Idle /\ lastEnacted = 1
-    /\ tabs = Empty /\ dtabs = Empty /\ flushedCq = 0 /\ durable = 0
-    /\ mode = "open" /\ rcv = [f |-> 0, r |-> 0, any |-> FALSE]
+    /\ tabs = Empty /\ dtabs = Empty /\ flushedCq = 0 /\ applied = 0 /\ durable = 0
+    /\ mode = "open" /\ rcv = [f |-> 0, r |-> 0, any |-> FALSE, pre |-> 0, dmg |-> "none"]
     /\ ncrash = 0 /\ naux = 0
-    /\ lastRec = [n |-> 0, lo |-> 0, ok |-> TRUE]
+    /\ lastRec = [n |-> 0, lo |-> 0, ok |-> TRUE, pre |-> 0]
     /\ rdr = [pc |-> "idle"]
     /\ trace = <<>>
 
@@ -218,7 +220,7 @@ Init ==
 CovlReadLocked == rdr.pc \in {"lovl", "tabs"}
 
 OthersUnchanged == UNCHANGED <<hist, logical, calls, queue, nextCid, covl, lw, nextRid, logs, rpos, lovl,
-                               cw, lastEnacted, tabs, dtabs, flushedCq, durable, mode, rcv, ncrash,
+                               cw, lastEnacted, tabs, dtabs, flushedCq, applied, durable, mode, rcv, ncrash,
                                naux, lastRec, trace>>
 
 RStart(l) ==
@@ -260,7 +262,7 @@ Commit(tx) ==
     /\ queue' = Append(queue, [cid |-> nextCid + 1, h |-> Len(hist) + 1, tx |-> tx])
     /\ covl' = CovlAdd(covl, nextCid + 1, tx, 1)
     /\ UNCHANGED <<lw, nextRid, logs, rpos, lovl, cw, lastEnacted, tabs, dtabs,
-                   flushedCq, durable, mode, rcv, ncrash, naux, lastRec>>
+                   flushedCq, applied, durable, mode, rcv, ncrash, naux, lastRec>>
     /\ Log([a |-> "Commit", tx |-> tx, ok |-> TRUE, obs |-> Obs'])
 
 \* A commit call that returns an error changes nothing (C08).
@@ -270,7 +272,7 @@ Reject(tx) ==
     /\ (mode = "open") => ~ValidTx(tx)
     /\ calls' = calls + 1
     /\ UNCHANGED <<hist, logical, queue, nextCid, covl, lw, nextRid, logs, rpos, lovl, cw,
-                   lastEnacted, tabs, dtabs, flushedCq, durable, mode, rcv, ncrash,
+                   lastEnacted, tabs, dtabs, flushedCq, applied, durable, mode, rcv, ncrash,
                    naux, lastRec, rdr>>
     /\ Log([a |-> "Commit", tx |-> tx, ok |-> FALSE, obs |-> Obs'])
 
@@ -290,7 +292,7 @@ PopAndPlan ==
        /\ queue' = Tail(queue)
        /\ nextRid' = nextRid + 1
     /\ UNCHANGED <<hist, logical, calls, nextCid, covl, logs, rpos, lovl, cw, lastEnacted, tabs,
-                   dtabs, flushedCq, durable, mode, rcv, ncrash, naux, lastRec, rdr>>
+                   dtabs, flushedCq, applied, durable, mode, rcv, ncrash, naux, lastRec, rdr>>
     /\ NoLog
 
 \* log.rs end_record: append to the log file and publish into lovl (one write lock)
@@ -301,7 +303,7 @@ EndRecord ==
     /\ lovl' = LovlAdd(lovl, lw.rec)
     /\ lw' = IF "clean_covl_first" \in Mut THEN Idle ELSE [lw EXCEPT !.pc = "ended"]
     /\ UNCHANGED <<hist, logical, calls, queue, nextCid, covl, nextRid, rpos, cw, lastEnacted,
-                   tabs, dtabs, flushedCq, durable, mode, rcv, ncrash, naux, lastRec, rdr>>
+                   tabs, dtabs, flushedCq, applied, durable, mode, rcv, ncrash, naux, lastRec, rdr>>
     /\ NoLog
 
 \* the overlay entries of the commit are dropped only after lovl holds them
@@ -311,7 +313,7 @@ CleanCovl ==
     /\ covl' = CovlClean(covl, lw.cid, lw.tx)
     /\ lw' = IF "clean_covl_first" \in Mut THEN [lw EXCEPT !.pc = "cleaned"] ELSE Idle
     /\ UNCHANGED <<hist, logical, calls, queue, nextCid, nextRid, logs, rpos, lovl, cw,
-                   lastEnacted, tabs, dtabs, flushedCq, durable, mode, rcv, ncrash,
+                   lastEnacted, tabs, dtabs, flushedCq, applied, durable, mode, rcv, ncrash,
                    naux, lastRec, rdr>>
     /\ NoLog
 
@@ -326,7 +328,7 @@ ProcessCommit ==
        /\ lovl' = LovlAdd(lovl, rec)
        /\ covl' = CovlClean(covl, c.cid, c.tx)
     /\ UNCHANGED <<hist, logical, calls, nextCid, lw, rpos, cw, lastEnacted, tabs, dtabs,
-                   flushedCq, durable, mode, rcv, ncrash, naux, lastRec, rdr>>
+                   flushedCq, applied, durable, mode, rcv, ncrash, naux, lastRec, rdr>>
     /\ Log([a |-> "ProcessCommit", obs |-> Obs'])
 
 \* A record that originates inside the database (reindex batch): consumes a record id,
@@ -337,7 +339,7 @@ AuxRecord ==
     /\ nextRid' = nextRid + 1
     /\ logs' = AppendRec([rid |-> nextRid, h |-> 0, cid |-> 0, w |-> <<>>])
     /\ UNCHANGED <<hist, logical, calls, queue, nextCid, covl, lw, rpos, lovl, cw, lastEnacted,
-                   tabs, dtabs, flushedCq, durable, mode, rcv, ncrash, lastRec, rdr>>
+                   tabs, dtabs, flushedCq, applied, durable, mode, rcv, ncrash, lastRec, rdr>>
     /\ Log([a |-> "AuxRecord", obs |-> Obs'])
 
 ----------------------------------------------------------------------------
@@ -349,6 +351,7 @@ FlushLog ==
     /\ mode = "open" /\ HasApp
     /\ logs' = [logs EXCEPT ![Len(logs)].st = "rq", ![Len(logs)].syn = SyncWal]
     /\ durable' = IF SyncWal THEN Max(durable, MaxH(logs[Len(logs)].recs, 1)) ELSE durable
+    /\ UNCHANGED applied
     /\ UNCHANGED <<hist, logical, calls, queue, nextCid, covl, lw, nextRid, rpos, lovl, cw,
                    lastEnacted, tabs, dtabs, flushedCq, mode, rcv, ncrash, naux, lastRec, rdr>>
     /\ Log([a |-> "FlushLog", obs |-> Obs'])
@@ -374,7 +377,7 @@ LogEof ==
        /\ logs' = [logs EXCEPT ![f].st = "cq"]
     /\ rpos' = 0
     /\ UNCHANGED <<hist, logical, calls, queue, nextCid, covl, lw, nextRid, lovl, cw, lastEnacted,
-                   tabs, dtabs, flushedCq, durable, mode, rcv, ncrash, naux, lastRec, rdr>>
+                   tabs, dtabs, flushedCq, applied, durable, mode, rcv, ncrash, naux, lastRec, rdr>>
     /\ Log([a |-> "EnactOne", obs |-> Obs'])
 
 EnactBegin ==
@@ -387,7 +390,7 @@ EnactBegin ==
        /\ rpos' = n.r - 1
        /\ lovl' = IF "endread_first" \in Mut THEN LovlClean(lovl, logs[n.f].recs[n.r]) ELSE lovl
     /\ UNCHANGED <<hist, logical, calls, queue, nextCid, covl, lw, nextRid, lastEnacted,
-                   tabs, dtabs, flushedCq, durable, mode, rcv, ncrash, naux, lastRec, rdr>>
+                   tabs, dtabs, flushedCq, applied, durable, mode, rcv, ncrash, naux, lastRec, rdr>>
     /\ NoLog
 
 EnactWrite(l) ==
@@ -395,12 +398,13 @@ EnactWrite(l) ==
     /\ tabs' = [tabs EXCEPT ![l] = cw.rec.w[l]]
     /\ cw' = [cw EXCEPT !.todo = @ \ {l}]
     /\ UNCHANGED <<hist, logical, calls, queue, nextCid, covl, lw, nextRid, logs, rpos, lovl,
-                   lastEnacted, dtabs, flushedCq, durable, mode, rcv, ncrash, naux, lastRec, rdr>>
+                   lastEnacted, dtabs, flushedCq, applied, durable, mode, rcv, ncrash, naux, lastRec, rdr>>
     /\ NoLog
 
 EnactEnd ==
     /\ mode = "open" /\ Fine /\ cw.pc = "writing" /\ cw.todo = {}
     /\ lastEnacted' = cw.rec.rid
+    /\ applied' = Max(applied, cw.rec.h)
     /\ cw' = [cw EXCEPT !.pc = "written"]
     /\ UNCHANGED <<hist, logical, calls, queue, nextCid, covl, lw, nextRid, logs, rpos, lovl,
                    tabs, dtabs, flushedCq, durable, mode, rcv, ncrash, naux, lastRec, rdr>>
@@ -413,7 +417,7 @@ EndRead ==
     /\ rpos' = rpos + 1
     /\ cw' = Idle
     /\ UNCHANGED <<hist, logical, calls, queue, nextCid, covl, lw, nextRid, logs, lastEnacted,
-                   tabs, dtabs, flushedCq, durable, mode, rcv, ncrash, naux, lastRec, rdr>>
+                   tabs, dtabs, flushedCq, applied, durable, mode, rcv, ncrash, naux, lastRec, rdr>>
     /\ NoLog
 
 \* stepping API: one enact_logs(false) call that finds a record
@@ -425,6 +429,7 @@ EnactOne ==
           /\ tabs' = TabsApply(tabs, rec)
           /\ lovl' = LovlClean(lovl, rec)
           /\ lastEnacted' = rec.rid
+          /\ applied' = Max(applied, rec.h)
        /\ logs' = IF logs[n.f].st \in {"rq", "app"} THEN [logs EXCEPT ![n.f].st = "rd"] ELSE logs
        /\ rpos' = n.r
     /\ UNCHANGED <<hist, logical, calls, queue, nextCid, covl, lw, nextRid, cw, dtabs, flushedCq,
@@ -440,7 +445,7 @@ FlushTables ==
     /\ dtabs' = tabs
     /\ flushedCq' = NumCq
     /\ UNCHANGED <<hist, logical, calls, queue, nextCid, covl, lw, nextRid, logs, rpos, lovl, cw,
-                   lastEnacted, tabs, durable, mode, rcv, ncrash, naux, lastRec, rdr>>
+                   lastEnacted, tabs, applied, durable, mode, rcv, ncrash, naux, lastRec, rdr>>
     /\ NoLog
 
 \* log.rs clean_logs: set_len(0) + sync_all of a file whose changes were flushed
@@ -453,7 +458,7 @@ TruncateLog ==
     /\ flushedCq' = IF flushedCq > 0 THEN flushedCq - 1 ELSE 0
     /\ rpos' = IF logs[1].st = "rd" THEN 0 ELSE rpos
     /\ UNCHANGED <<hist, logical, calls, queue, nextCid, covl, lw, nextRid, lovl, cw,
-                   lastEnacted, tabs, dtabs, durable, mode, rcv, ncrash, naux, lastRec, rdr>>
+                   lastEnacted, tabs, dtabs, applied, durable, mode, rcv, ncrash, naux, lastRec, rdr>>
     /\ NoLog
 
 \* stepping API: Db::clean_logs()
@@ -463,7 +468,7 @@ Clean ==
     /\ logs' = SubSeq(logs, NumCq + 1, Len(logs))
     /\ flushedCq' = 0
     /\ UNCHANGED <<hist, logical, calls, queue, nextCid, covl, lw, nextRid, rpos, lovl, cw,
-                   lastEnacted, tabs, durable, mode, rcv, ncrash, naux, lastRec, rdr>>
+                   lastEnacted, tabs, applied, durable, mode, rcv, ncrash, naux, lastRec, rdr>>
     /\ Log([a |-> "Clean", obs |-> Obs'])
 
 ----------------------------------------------------------------------------
@@ -492,7 +497,7 @@ CloseOpen ==
     /\ queue' = <<>> /\ covl' = [l \in Loc |-> NoCovl] /\ lovl' = [l \in Loc |-> NoLovl]
     /\ logs' = <<>> /\ rpos' = 0 /\ flushedCq' = 0
     /\ nextRid' = 1 /\ nextCid' = 0 /\ lastEnacted' = 1
-    /\ durable' = Len(hist)
+    /\ durable' = Len(hist) /\ applied' = Len(hist)
     /\ UNCHANGED <<hist, logical, calls, lw, cw, mode, rcv, ncrash, naux, lastRec, rdr>>
     /\ Log([a |-> "CloseOpen", obs |-> Obs'])
 
@@ -521,7 +526,7 @@ Crash ==
     /\ logs' = IF mode = "recovering" THEN logs ELSE CrashLogs
     /\ mode' = "crashed"
     /\ flushedCq' = 0 /\ rpos' = 0
-    /\ UNCHANGED <<hist, logical, calls, nextRid, lastEnacted, tabs, dtabs, durable, rcv, naux, lastRec>>
+    /\ UNCHANGED <<hist, logical, calls, nextRid, lastEnacted, tabs, dtabs, applied, durable, rcv, naux, lastRec>>
     /\ Log([a |-> "Crash"])
 
 \* Power loss (default options: sync_wal): of everything written since a file's last sync an
@@ -545,20 +550,52 @@ PowerLoss(keepLast, tornLast, mix) ==
     /\ dtabs' = tabs'
     /\ mode' = "crashed"
     /\ flushedCq' = 0 /\ rpos' = 0
-    /\ UNCHANGED <<hist, logical, calls, nextRid, lastEnacted, durable, rcv, naux, lastRec>>
+    /\ UNCHANGED <<hist, logical, calls, nextRid, lastEnacted, applied, durable, rcv, naux, lastRec>>
     /\ Log([a |-> "PowerLoss"])
+
+\* the recovered prefix: largest n with tabs = state after hist[1..n]
+PrefixSet(tb) == { n \in 0..Len(hist) : tb = StateAfter(hist, n) }
 
 \* Db::open: Log::open orders the files by first record id; last_enacted = first - 1
 NonEmptyLogs == SelectSeq(logs, LAMBDA f : f.recs # <<>>)
 
+\* The records recovery is going to apply, given the files on disk.
+RECURSIVE ReplayFrom(_, _, _, _)
+ReplayFrom(fs, f, r, last) ==
+    IF f > Len(fs) THEN <<>>
+    ELSE IF r <= Len(fs[f].recs)
+         THEN LET rec == fs[f].recs[r] IN
+              IF rec.rid = last + 1 /\ ~("bad" \in DOMAIN rec)
+              THEN <<rec>> \o ReplayFrom(fs, f, r + 1, rec.rid)
+              ELSE <<>>
+         ELSE ReplayFrom(fs, f + 1, 1, last)
+ReplaySeq == LET fs == NonEmptyLogs IN
+             IF fs = <<>> THEN <<>> ELSE ReplayFrom(fs, 1, 1, fs[1].recs[1].rid - 1)
+ReplayHs == {ReplaySeq[i].h : i \in 1..Len(ReplaySeq)} \ {0}
+
+\* Two damage patterns that parity-db's recovery (which keeps no record of the last applied
+\* id in the tables) cannot handle; see DESIGN.md, findings F12a/F12b.  They never arise
+\* from crashes alone (invariant NoNaturalDamage).
+\*  headgap: the replay starts after a gap (the oldest surviving record is not the successor
+\*           of what the tables hold): later transactions applied without their predecessors
+\*  regress: already applied old records are replayed and the replay then stops before
+\*           reaching what the tables held: the tables go back in time (or are mixed)
+DamageClass ==
+    IF ReplayHs = {} THEN "none"
+    ELSE IF MinOf(ReplayHs) > applied + 1 THEN "headgap"
+    ELSE IF MaxOf(ReplayHs) < applied THEN "regress"
+    ELSE "none"
+
 RecoverStart ==
     /\ mode = "crashed"
+    /\ ("safe_damage" \in Feat) => DamageClass = "none"
     /\ mode' = "recovering"
     /\ logs' = [i \in 1..Len(NonEmptyLogs) |-> [NonEmptyLogs[i] EXCEPT !.st = "rp"]]
     /\ lastEnacted' = IF NonEmptyLogs = <<>> THEN 1 ELSE NonEmptyLogs[1].recs[1].rid - 1
-    /\ rcv' = [f |-> 1, r |-> 0, any |-> FALSE]
+    /\ rcv' = [f |-> 1, r |-> 0, any |-> FALSE,
+               pre |-> applied, dmg |-> DamageClass]
     /\ UNCHANGED <<hist, logical, calls, queue, nextCid, covl, lw, nextRid, rpos, lovl, cw, tabs,
-                   dtabs, flushedCq, durable, ncrash, naux, lastRec, rdr>>
+                   dtabs, flushedCq, applied, durable, ncrash, naux, lastRec, rdr>>
     /\ NoLog
 
 \* enact_logs(true): a record is applied only if it is complete, checksum-valid (a torn
@@ -571,25 +608,24 @@ RecoverRec ==
             IF rec.rid = lastEnacted + 1 /\ ~("bad" \in DOMAIN rec)
             THEN /\ tabs' = TabsApply(tabs, rec)
                  /\ lastEnacted' = rec.rid
+                 /\ applied' = Max(applied, rec.h)
                  /\ rcv' = [rcv EXCEPT !.r = @ + 1, !.any = TRUE]
             ELSE /\ rcv' = [rcv EXCEPT !.f = Len(logs) + 1]      \* clear_replay_logs
-                 /\ UNCHANGED <<tabs, lastEnacted>>
+                 /\ UNCHANGED <<tabs, lastEnacted, applied>>
        ELSE /\ rcv' = [rcv EXCEPT !.f = @ + 1, !.r = 0]           \* next file
-            /\ UNCHANGED <<tabs, lastEnacted>>
+            /\ UNCHANGED <<tabs, lastEnacted, applied>>
     /\ UNCHANGED <<hist, logical, calls, queue, nextCid, covl, lw, nextRid, logs, rpos, lovl, cw,
                    dtabs, flushedCq, durable, mode, ncrash, naux, lastRec, rdr>>
     /\ NoLog
-
-\* the recovered prefix: largest n with tabs = state after hist[1..n]
-PrefixSet(tb) == { n \in 0..Len(hist) : tb = StateAfter(hist, n) }
-MaxOf(S) == CHOOSE x \in S : \A y \in S : x >= y
 
 \* clean_all_logs (msync), kill_logs (delete); the handle is now open.
 RecoverDone ==
     /\ mode = "recovering" /\ rcv.f > Len(logs)
     /\ LET P == PrefixSet(tabs)
            n == IF P = {} THEN 0 ELSE MaxOf(P) IN
-       /\ lastRec' = [n |-> n, lo |-> durable, ok |-> (P # {})]
+       \* lower bound: the synced commits; with damaged logs only what the tables held
+       /\ lastRec' = [n |-> n, lo |-> (IF "corrupt" \in Feat THEN Min(durable, rcv.pre) ELSE durable),
+                      ok |-> (P # {}), pre |-> rcv.pre]
        /\ hist' = SubSeq(hist, 1, n)
        /\ logical' = StateAfter(hist, n)
        /\ durable' = n
@@ -597,9 +633,10 @@ RecoverDone ==
     /\ logs' = <<>>
     /\ nextRid' = IF rcv.any THEN lastEnacted + 1 ELSE 1
     /\ mode' = "open"
+    /\ applied' = IF lastRec'.ok THEN lastRec'.n ELSE applied
     /\ UNCHANGED <<calls, queue, nextCid, covl, lw, rpos, lovl, cw, lastEnacted, tabs,
                    flushedCq, rcv, ncrash, naux, rdr>>
-    /\ Log([a |-> "Reopen", n |-> lastRec'.n, lo |-> lastRec'.lo, obs |-> Obs'])
+    /\ Log([a |-> "Reopen", n |-> lastRec'.n, lo |-> lastRec'.lo, dmg |-> rcv.dmg, obs |-> Obs'])
 
 ----------------------------------------------------------------------------
 (* Damaged logs (C13): applied to the files found at open *)
@@ -612,7 +649,7 @@ CorruptTruncate(f, keep, torn) ==
     /\ logs' = [logs EXCEPT ![f].recs = SubSeq(@, 1, keep), ![f].partial = torn]
     /\ naux' = naux + 1
     /\ UNCHANGED <<hist, logical, calls, queue, nextCid, covl, lw, nextRid, rpos, lovl, cw,
-                   lastEnacted, tabs, dtabs, flushedCq, durable, mode, rcv, ncrash, lastRec, rdr>>
+                   lastEnacted, tabs, dtabs, flushedCq, applied, durable, mode, rcv, ncrash, lastRec, rdr>>
     /\ Log([a |-> "CorruptTruncate", f |-> f, keep |-> keep, torn |-> torn])
 
 \* flip bits inside record r of file f: its checksum no longer matches
@@ -622,7 +659,7 @@ CorruptRecord(f, r) ==
     /\ logs' = [logs EXCEPT ![f].recs[r] = [rid |-> @.rid, h |-> @.h, cid |-> @.cid, w |-> @.w, bad |-> TRUE]]
     /\ naux' = naux + 1
     /\ UNCHANGED <<hist, logical, calls, queue, nextCid, covl, lw, nextRid, rpos, lovl, cw,
-                   lastEnacted, tabs, dtabs, flushedCq, durable, mode, rcv, ncrash, lastRec, rdr>>
+                   lastEnacted, tabs, dtabs, flushedCq, applied, durable, mode, rcv, ncrash, lastRec, rdr>>
     /\ Log([a |-> "CorruptRecord", f |-> f, r |-> r])
 
 \* a log file disappears
@@ -632,7 +669,7 @@ CorruptDelete(f) ==
     /\ logs' = SubSeq(logs, 1, f - 1) \o SubSeq(logs, f + 1, Len(logs))
     /\ naux' = naux + 1
     /\ UNCHANGED <<hist, logical, calls, queue, nextCid, covl, lw, nextRid, rpos, lovl, cw,
-                   lastEnacted, tabs, dtabs, flushedCq, durable, mode, rcv, ncrash, lastRec, rdr>>
+                   lastEnacted, tabs, dtabs, flushedCq, applied, durable, mode, rcv, ncrash, lastRec, rdr>>
     /\ Log([a |-> "CorruptDelete", f |-> f])
 
 ----------------------------------------------------------------------------
@@ -647,7 +684,7 @@ IoFailAppend(torn) ==
     /\ logs' = IF torn /\ HasApp THEN [logs EXCEPT ![Len(logs)].partial = TRUE] ELSE logs
     /\ mode' = "err"
     /\ UNCHANGED <<hist, logical, calls, nextCid, covl, lw, rpos, lovl, cw, lastEnacted, tabs,
-                   dtabs, flushedCq, durable, rcv, ncrash, naux, lastRec, rdr>>
+                   dtabs, flushedCq, applied, durable, rcv, ncrash, naux, lastRec, rdr>>
     /\ Log([a |-> "IoFailAppend", obs |-> Obs'])
 
 \* enact_logs fails after writing the locations in `done` of the next record
@@ -659,7 +696,7 @@ IoFailEnact(done) ==
        /\ tabs' = [l \in Loc |-> IF l \in done THEN logs[n.f].recs[n.r].w[l] ELSE tabs[l]]
     /\ mode' = "err"
     /\ UNCHANGED <<hist, logical, calls, queue, nextCid, covl, lw, nextRid, logs, rpos, lovl, cw,
-                   lastEnacted, dtabs, flushedCq, durable, rcv, ncrash, naux, lastRec, rdr>>
+                   lastEnacted, dtabs, flushedCq, applied, durable, rcv, ncrash, naux, lastRec, rdr>>
     /\ Log([a |-> "IoFailEnact", obs |-> Obs'])
 
 \* any other failing step (sync, truncate, flush): nothing changes but the mode
@@ -667,7 +704,7 @@ IoFailOther ==
     /\ "iofail" \in Feat /\ mode = "open" /\ LwIdle /\ CwIdle
     /\ mode' = "err"
     /\ UNCHANGED <<hist, logical, calls, queue, nextCid, covl, lw, nextRid, logs, rpos, lovl, cw,
-                   lastEnacted, tabs, dtabs, flushedCq, durable, rcv, ncrash, naux, lastRec, rdr>>
+                   lastEnacted, tabs, dtabs, flushedCq, applied, durable, rcv, ncrash, naux, lastRec, rdr>>
     /\ Log([a |-> "IoFailOther", obs |-> Obs'])
 
 \* drop in the error state (kill_logs): fully enacted logs are truncated, nothing else is
@@ -678,7 +715,7 @@ DropErr ==
     /\ logs' = SelectSeq(logs, LAMBDA f : f.st # "cq")
     /\ mode' = "crashed"
     /\ flushedCq' = 0 /\ rpos' = 0
-    /\ UNCHANGED <<hist, logical, calls, nextRid, lastEnacted, tabs, dtabs, durable, rcv, ncrash,
+    /\ UNCHANGED <<hist, logical, calls, nextRid, lastEnacted, tabs, dtabs, applied, durable, rcv, ncrash,
                    naux, lastRec>>
     /\ Log([a |-> "DropErr"])
 
@@ -735,6 +772,9 @@ LayerHandOver ==
 \* C02: recovery exposes a prefix.  C03 / C12: it contains every synced commit.
 RecoveredIsPrefix == lastRec.ok
 SyncedSurvive == lastRec.n >= lastRec.lo
+\* C13: whatever the logs contain, recovery never goes back behind what the tables held.
+NotOlderThanTables == lastRec.n >= lastRec.pre
+NoNaturalDamage == ("corrupt" \notin Feat) => rcv.dmg = "none"
 
 \* C03: a clean close + reopen keeps everything (checked in the state after CloseOpen).
 DrainedIsAll ==
@@ -754,9 +794,9 @@ WalBeforeApply ==
 \* hide the history variable (and the bookkeeping that depends on it only through reads)
 \* for configs without crashes the history matters only through the logical state
 ViewLogical == <<rdr, logical, calls, queue, nextCid, covl, lw, nextRid, logs, rpos, lovl, cw,
-                 lastEnacted, tabs, dtabs, flushedCq, durable, mode, rcv, ncrash, naux, lastRec>>
+                 lastEnacted, tabs, dtabs, flushedCq, applied, durable, mode, rcv, ncrash, naux, lastRec>>
 
 ViewNoTrace == <<rdr, hist, logical, calls, queue, nextCid, covl, lw, nextRid, logs, rpos, lovl, cw,
-                 lastEnacted, tabs, dtabs, flushedCq, durable, mode, rcv, ncrash, naux, lastRec>>
+                 lastEnacted, tabs, dtabs, flushedCq, applied, durable, mode, rcv, ncrash, naux, lastRec>>
 
 =============================================================================
